@@ -56,8 +56,42 @@ def rule_legend(ctx, rep):
             for o in pl:
                 if "TOKEN_TYPE_LEGEND" in o[2]:
                     ok = True
-    if ok:
-        r.ok("server_capabilities advertises TOKEN_TYPE_LEGEND", "plc2x/src/lsp.rs")
+    # ... the whole constant, in its order: the indices in the token data are positions in the *advertised* list
+    whole = False
+    altered = []
+    if sc:
+        b = sc[0]
+        bodies = [b] + [cb for cb in ctx.prog.bodies.values() if cb.f["dk"] == "Closure" and cb.f.get("parent") == b.id]
+        ALTER = {"filter", "filter_map", "retain", "skip", "take", "skip_while", "take_while", "step_by", "rev", "reverse", "sort", "sort_by", "sort_by_key",
+                 "dedup", "remove", "swap_remove", "truncate", "pop", "drain", "split_off", "insert", "push", "extend", "chain"}
+        for bd in bodies:
+            for c in bd.calls():
+                nm = (c.callee or c.u or "").split("::")[-1]
+                if nm in ALTER:
+                    altered.append("%s() at line %d" % (nm, c.loc[0]))
+        for i, j, st in b.all_stmts():
+            if st[0] == "=" and st[2][0] == "agg" and isinstance(st[2][1], dict) and (st[2][1].get("adt") or "").endswith("SemanticTokensLegend"):
+                ops = dict(zip(st[2][1]["fields"], st[2][2]))
+                p0 = op_place(ops.get("token_types")) if ops.get("token_types") else None
+                d = b.single_def(b.root(p0)[0]) if p0 is not None else None
+                if d and d[0] == "call" and (d[2].callee or d[2].u or "").split("::")[-1] in ("into", "to_vec", "from", "into_vec", "to_owned", "clone", "collect") and d[2].args:
+                    k = b.const_of(d[2].args[0])
+                    a0 = d[2].args[0]
+                    txt = (k[2] if k else "") + " " + (a0[2] if a0[0] == "c" else "")
+                    if "TOKEN_TYPE_LEGEND" in txt:
+                        whole = True
+                    else:
+                        # promoted reference to the constant
+                        for pl in b.f.get("promoted", []):
+                            for o in pl:
+                                if "TOKEN_TYPE_LEGEND" in o[2] and a0[0] == "c" and "promoted" in a0[2]:
+                                    whole = True
+    if ok and whole and not altered:
+        r.ok("server_capabilities advertises TOKEN_TYPE_LEGEND", "plc2x/src/lsp.rs", "token_types is the constant itself")
+    elif ok and (altered or not whole):
+        r.finding("server_capabilities|legend-altered", "plc2x/src/lsp.rs", "the advertised legend is derived from TOKEN_TYPE_LEGEND but not the constant as it is (%s): "
+                  "the *_INDEX constants in the token data index the full list, so every class after a dropped or moved entry is decoded as another one"
+                  % (", ".join(altered) or "token_types is not TOKEN_TYPE_LEGEND.into()/to_vec()"))
     else:
         r.finding("server_capabilities|legend", "plc2x/src/lsp.rs", "the advertised legend is not the TOKEN_TYPE_LEGEND constant")
     return names, idx
